@@ -134,6 +134,12 @@ def r5_truncation(ctx):
         if not (arg_slice(g, t, 0)["locals"] & mdp):
             continue
         c1 = op_const(t["a"][1])
+        if c1 is None and op_local(t["a"][1]) is not None:
+            # the constant handed to a spliced helper's parameter
+            for x in g.copy_chain(op_local(t["a"][1])):
+                for d in g.defs(x):
+                    if d["kind"] == "assign" and d["rv"][0] == "use" and op_const(d["rv"][1]) is not None:
+                        c1 = op_const(d["rv"][1])
         is_n = bool(c1 and c1.get("tyconst") == "N")
         ok, how, rej_truth = loop_bool_guard(g, L[0], bi)
         ctx.ob("R5", "degree-truncation-check-in-loop", ok and rej_truth is False and is_n,
